@@ -8,6 +8,9 @@
 #include <occa/internal/lang/parser.hpp>
 #include <occa/internal/utils/sys.hpp>
 #include <occa/internal/functional/functionStore.hpp>
+#ifdef LIBOCCA_OCCA_VERIF
+#include <occa/internal/verif.hpp>
+#endif
 
 namespace occa {
   //---[ kernel ]-----------------------
@@ -58,6 +61,9 @@ namespace occa {
       return;
     }
     modeKernel->removeKernelRef(this);
+#ifdef LIBOCCA_OCCA_VERIF
+    verif::yield(verif::ptAfterRemoveKernelRef);
+#endif
     if (modeKernel->modeKernel_t::needsFree()) {
       free();
     }
